@@ -51,8 +51,8 @@ Definition chk_name (c : name_case) : Z :=
 
 (* pyeq (spec validation of Model/C11Share.v:py_eq): two package values and what the live Python said of `x == y` for the
    values the live importer made of them (0 False, 1 True, 2 raised).  Code 3: the model decides otherwise.
-   chk_pyeq_open marks (code 9) the pairs the model leaves open (None / a value it does not import), so that the harness
-   can report how many pairs were decided. *)
+   Code 9 marks the pairs the model leaves open (None / a value it does not import), so that the harness can report how
+   many pairs were decided; it is not a failure. *)
 Definition pyeq_case := (pvalue * pvalue * Z)%type.
 Definition pyeq_model (a b : pvalue) : option bool :=
   match import_value a, import_value b with
@@ -63,7 +63,5 @@ Definition chk_pyeq (c : pyeq_case) : Z :=
   let '(a, b, live) := c in
   match pyeq_model a b with
   | Some r => if (if r then 1 else 0) =? live then 0 else 3
-  | None => 0
+  | None => 9
   end.
-Definition chk_pyeq_open (c : pyeq_case) : Z :=
-  let '(a, b, live) := c in match pyeq_model a b with Some _ => 0 | None => 9 end.
